@@ -19,7 +19,7 @@ import selectors
 
 
 class Deadlock(Exception):
-    """select(None): nothing ready and nothing scheduled."""
+    """select(None): nothing ready and nothing scheduled (or a livelock, see VirtualLoop._run_once)."""
 
 
 class _VSelector(selectors.SelectSelector):
@@ -39,6 +39,7 @@ class VirtualLoop(asyncio.SelectorEventLoop):
     def __init__(self):
         self.vtime = 0.0
         self.iteration = 0
+        self.max_iterations = 400000
         self.pre_iteration = None
         super().__init__(selector=_VSelector(self))
 
@@ -47,6 +48,8 @@ class VirtualLoop(asyncio.SelectorEventLoop):
 
     def _run_once(self):
         self.iteration += 1
+        if self.iteration > self.max_iterations:
+            raise Deadlock("livelock: the loop keeps running without the clock advancing")
         if self.pre_iteration is not None:
             self.pre_iteration(self)
         super()._run_once()
@@ -61,10 +64,23 @@ class VirtualLoop(asyncio.SelectorEventLoop):
         self._ready.insert(pos, h)
 
 
+EPOCHS = (
+    _real_datetime.datetime(2020, 1, 1),
+    _real_datetime.datetime(2026, 10, 25, 0, 59, 57),  # end of daylight saving in Europe one second-ish later (01:00 UTC)
+    _real_datetime.datetime(2026, 3, 29, 0, 59, 57),  # start of daylight saving
+    _real_datetime.datetime(2024, 2, 29, 23, 59, 55),  # leap day, midnight ahead
+    _real_datetime.datetime(2025, 12, 31, 23, 59, 55),  # last day of month and year
+    _real_datetime.datetime(2026, 9, 30, 12, 0, 0),  # last day of a 30-day month
+)
+
+
 class ClockShim:
     """Stands in for the `datetime` module inside han.meter_connection: utcnow() follows the virtual clock."""
 
-    def __init__(self, loop: VirtualLoop):
+    def __init__(self, loop: VirtualLoop, epoch=None):
+        epoch = epoch or EPOCHS[0]
+        self.date = _real_datetime.date
+        self.time = _real_datetime.time
         shim = self
         self._loop = loop
         self.calls = 0
@@ -75,12 +91,12 @@ class ClockShim:
             @classmethod
             def utcnow(cls):
                 shim.calls += 1
-                return _real_datetime.datetime(2020, 1, 1) + _real_datetime.timedelta(seconds=loop.vtime)
+                return epoch + _real_datetime.timedelta(seconds=loop.vtime)
 
             @classmethod
             def now(cls, tz=None):
                 shim.calls += 1
-                base = _real_datetime.datetime(2020, 1, 1) + _real_datetime.timedelta(seconds=loop.vtime)
+                base = epoch + _real_datetime.timedelta(seconds=loop.vtime)
                 return base.replace(tzinfo=tz) if tz is not None else base
 
         self.datetime = _DT
@@ -138,6 +154,23 @@ class FakeTransport(asyncio.BaseTransport):
             p.connection_lost(exc)
 
 
+import errno as _errno
+import socket as _socket
+
+# what real connection factories raise; every failing attempt uses the next one
+FAILURES = (
+    lambda: ConnectionRefusedError(_errno.ECONNREFUSED, "virtual: connection refused"),
+    lambda: OSError(_errno.EINTR, "virtual: interrupted system call"),
+    lambda: TimeoutError("virtual: timed out"),
+    lambda: BlockingIOError(_errno.EAGAIN, "virtual: resource temporarily unavailable"),
+    lambda: _socket.gaierror(-2, "virtual: name or service not known"),
+    lambda: OSError(_errno.EALREADY, "virtual: operation already in progress"),
+    lambda: InterruptedError(_errno.EINTR, "virtual: interrupted"),
+    lambda: ValueError("virtual: bad serial port settings"),
+    lambda: OSError(_errno.ENETUNREACH, "virtual: network is unreachable"),
+)
+
+
 class FakeFactory:
     """outcomes[i] in {'ok','fail','slow_ok','slow_fail'}; lifetimes[i] = None (stays up) or seconds until the peer is lost."""
 
@@ -167,9 +200,13 @@ class FakeFactory:
             try:
                 if outcome.startswith("slow"):
                     await asyncio.sleep(self.SLOW)
+                if outcome.endswith("self_cancel"):
+                    # the factory's own connect future is cancelled (e.g. by its own watchdog): not caused by the manager
+                    self.log.add("attempt_fail", i)
+                    raise asyncio.CancelledError()
                 if outcome.endswith("fail"):
                     self.log.add("attempt_fail", i)
-                    raise ConnectionRefusedError(f"virtual connect failure #{i}")
+                    raise FAILURES[i % len(FAILURES)]()
                 transport = FakeTransport(self.log, i)
                 transport.close_raises_after_loss = self.close_raises_after_loss
                 protocol = SmartMeterMessageProtocol(asyncio.Queue(), [ModeDReader()])
@@ -191,7 +228,7 @@ class FakeFactory:
 
 def run_scenario(outcomes, lifetimes, horizon: float, close_at=None, config=None, default_outcome="fail",
                  default_lifetime=None, use_clock_shim: bool = True, track_tasks: bool = True, close_raises_after_loss: bool = False,
-                 after_close: float = 200.0):
+                 after_close: float = 200.0, epoch=None):
     """Run ConnectionManager.connect_loop() on a fresh virtual loop.
 
     close_at: None | ("iteration", k, position) | ("time", t) - position: 'first' | 'last' | int index into the ready queue.
@@ -207,7 +244,7 @@ def run_scenario(outcomes, lifetimes, horizon: float, close_at=None, config=None
     shim = None
     saved = mc.datetime
     if use_clock_shim:
-        shim = ClockShim(loop)
+        shim = ClockShim(loop, epoch)
         mc.datetime = shim
     info = {"ready_len_at_injection": None, "max_tasks": 0, "task_samples": []}
     result = {"error": None}
